@@ -312,6 +312,9 @@ def has_quantifier(e):
 
 def model_value(model, v):
     """Concrete python value of a proxy / z3 term / container in a model (best effort, JSON-able)."""
+    if isinstance(v, SymFloat) and v.bits is not None:
+        e = model.eval(v.bits, model_completion=True)
+        return {"float_bits": "%#018x" % e.as_long(), "float": fp_to_py(model.eval(v.z, model_completion=True))}
     if isinstance(v, (SymInt, SymBool, SymFloat)):
         v = v.z
     if isinstance(v, z3.ExprRef):
@@ -627,12 +630,20 @@ class SymFloat:
     """IEEE-754 binary64; == is fp.eq as for Python floats."""
     py_type = float
 
-    def __init__(self, z):
+    def __init__(self, z, bits=None):
         self.z = z
+        self.bits = bits        # the IEEE-754 bit pattern when known: SMT-LIB has a single NaN, Python's NaNs carry a sign and a payload
 
     @staticmethod
     def fresh(name):
-        return SymFloat(z3.FP(name, F64))
+        bits = z3.BitVec(name + "_bits", 64)
+        return SymFloat(z3.fpBVToFP(bits, F64), bits)
+
+    def sign_bit(s):
+        """the IEEE sign bit (also of a NaN), as math.copysign sees it"""
+        if s.bits is not None:
+            return z3.Extract(63, 63, s.bits) == 1
+        return z3.fpIsNegative(s.z)
 
     def __eq__(s, o):
         if isinstance(o, SymFloat):
